@@ -168,6 +168,15 @@ func c05History(seed int64, idx int, tier string) []seqrun.Step {
 		W:         map[string]int{"begin": 8, "set": 30, "delete": 6, "commit": 8, "rollback": 3, "reopen": 4, "collect": 2, "drain": 1, "create": 3, "setreader": 3, "emptykey": 3},
 	}
 	steps := seqrun.Generate(rng, p)
+	if idx%3 == 2 {
+		// many records: Load walks more of them than one iterator batch holds
+		var many []seqrun.Step
+		n := 110 + rng.Intn(120)
+		for i := 0; i < n; i++ {
+			many = append(many, seqrun.Step{Op: "set", Actor: -1, Key: fmt.Sprintf("m%03d", i), Tag: fmt.Sprintf("h%d-m%d", idx, i), Len: 9 + i%7})
+		}
+		steps = append(many, steps...)
+	}
 	// make sure there is a reopen in the first third, then the overwrite phase
 	steps = append(steps[:len(steps)/3:len(steps)/3], append([]seqrun.Step{{Op: "reopen", Actor: -1}}, steps[len(steps)/3:]...)...)
 	steps = append(steps, seqrun.Step{Op: "reopen", Actor: -1})
